@@ -339,6 +339,30 @@ func ChanRecv2[C ~chan T | ~<-chan T, T any](ch C) (T, bool) {
 	return x.(T), true
 }
 
+// ChanLen is `len(ch)`.
+func ChanLen[C any](ch C) int {
+	id := chanID(ch)
+	if id == nil {
+		return 0
+	}
+	if simulated() && chanOwned(id) {
+		return ownedLen(id)
+	}
+	return peekLen(id)
+}
+
+//go:norace
+func ownedLen(id unsafe.Pointer) int {
+	st := chanLookup(id)
+	n := 0
+	for i := range st.q {
+		if st.q[i].taken == nil { // a rendezvous item is a parked sender, not a buffered value
+			n++
+		}
+	}
+	return n
+}
+
 // ChanClose is `close(ch)`.
 func ChanClose[C ~chan T | ~chan<- T, T any](ch C) {
 	if !simulated() {
